@@ -15,14 +15,14 @@ import (
 
 // BuildOverlay runs the rewriter for the given modes and returns the overlay file.
 func BuildOverlay(name string, modes ...string) (string, map[string]any, error) {
-	dir := "/verif/.work/ov/" + name
+	dir := Root() + "/.work/ov/" + name
 	if os.Getenv("VERIF_OVERLAY") != "" {
 		dir += "_mut"
 	}
 	os.MkdirAll(dir, 0o755)
 	args := append([]string{"run", "./cmd/rewrite", "-out", dir}, modes...)
 	cmd := exec.Command("go", args...)
-	cmd.Dir = "/verif/mc"
+	cmd.Dir = Root() + "/mc"
 	cmd.Env = append(os.Environ(), "GOFLAGS=-mod=mod", "GOPROXY=off")
 	var out, errb bytes.Buffer
 	cmd.Stdout, cmd.Stderr = &out, &errb
@@ -46,7 +46,7 @@ func BuildWith(out, pkg, overlay, tags string, extra ...string) error {
 	}
 	args = append(args, "-o", out, pkg)
 	cmd := exec.Command("go", args...)
-	cmd.Dir = "/verif/mc"
+	cmd.Dir = Root() + "/mc"
 	cmd.Env = append(os.Environ(), "GOFLAGS=-mod=mod", "GOPROXY=off")
 	if b, err := cmd.CombinedOutput(); err != nil {
 		return fmt.Errorf("go %v failed: %v\n%s", args, err, b)
@@ -147,7 +147,7 @@ func init() {
 			if err != nil {
 				return err
 			}
-			bin := "/verif/.work/bin/c13w"
+			bin := Root() + "/.work/bin/c13w"
 			if os.Getenv("VERIF_OVERLAY") != "" {
 				bin += "_mut"
 			}
@@ -217,7 +217,7 @@ func init() {
 		replayOne := func(raw []byte) (c13Run, map[string]string) {
 			var m map[string]string
 			json.Unmarshal(raw, &m)
-			bin := "/verif/.work/bin/c13w"
+			bin := Root() + "/.work/bin/c13w"
 			if os.Getenv("VERIF_OVERLAY") != "" {
 				bin += "_mut"
 			}
@@ -241,7 +241,7 @@ func init() {
 			// (re)build the worker against the current tree
 			ov, _, err := BuildOverlay("sync", "sync")
 			if err == nil {
-				err = BuildWith("/verif/.work/bin/c13w", "./c13w", ov, "verif_sched", "-race")
+				err = BuildWith(Root()+"/.work/bin/c13w", "./c13w", ov, "verif_sched", "-race")
 			}
 			if err != nil {
 				fmt.Println(err)
